@@ -397,6 +397,8 @@ def run(P, R, tier):
     _pp.check_pairwise_folds(P, R, ['factor_analysis', 'ivector', 'utils'])
     from ..engines import traps as _traps
     _traps.check(P, R, ['factor_analysis', 'ivector'], scope='(factor_analysis:(FactorAnalysisBase\\._prepare_dask_input|ISVMachine\\.(fit|e_step|m_step)|JFAMachine\\.(fit|e_step_\\w|m_step_\\w)|reduce_iadd|_\\w+)|ivector:(IVectorMachine\\.fit|e_step|m_step|_\\w+))')
+    from ..engines import proto as _pst
+    _pst.check_standins(P, R, 'ivector:IVectorMachine.fit')
 
 
 EXPLANATION += ' Also: the halving tree is decided on a normalised form of the loop (length / half expressions, new list by comprehension or appended in a for loop, odd carry taken from the old list), in fit or in a fold helper; (COVER.pairs) neighbour-pairing reductions keep the unpaired element.'
